@@ -73,6 +73,14 @@ pub enum Outcome {
     Mismatch(Cmd, String),
 }
 
+/// After a divergence that is not this check's business: bring the model back
+/// in line with the implementation. False = cannot continue from here.
+pub fn resync(st: &mut LSt) -> bool {
+    let o = obs_full(&st.vt);
+    let h = st.vt.verif_state();
+    st.model.resync(&o, &h)
+}
+
 /// Apply one op to both; stops at the first non-Ok part.
 pub fn lock_apply(st: &mut LSt, op: &Op) -> Outcome {
     let mut parts = vec![];
@@ -134,6 +142,9 @@ impl LockStep {
     /// check's property? Hidden components have fixed owners.
     fn blame(&self, cmd: &Cmd, what: &str) -> bool {
         let p = self.property;
+        if what.starts_with("hidden state: pending-wrap flag") {
+            return p == "C04" || p == "C02";
+        }
         if what.starts_with("hidden state: tab stops") {
             return p == "C18";
         }
@@ -190,6 +201,19 @@ impl System for LockStep {
             return;
         }
         let res = lock_apply(st, op);
+        if out.is_none() {
+            // replaying a history: reproduce what exploration did on a foreign divergence
+            match &res {
+                Outcome::Ok => {}
+                Outcome::Unspecified(_) => st.dead = true,
+                Outcome::Mismatch(cmd, w) => {
+                    if self.blame(cmd, w) || matches!(op.cmd, Seq(_)) || !resync(st) {
+                        st.dead = true;
+                    }
+                }
+            }
+            return;
+        }
         if let Some(out) = out {
             out.count("lockstep_transitions");
             match res {
@@ -209,7 +233,6 @@ impl System for LockStep {
                             format!("after {:?}: {}", cmd, w),
                         );
                     } else {
-                        out.prune = true;
                         out.count("foreign_divergence");
                         out.notes.push(format!(
                             "foreign-divergence property={:?} (seen by the {} check) after {:?}: {}",
@@ -218,6 +241,12 @@ impl System for LockStep {
                             cmd,
                             w
                         ));
+                        // the rest of a multi-part op was not executed: stop here,
+                        // otherwise continue from the state the implementation is in
+                        if matches!(op.cmd, Seq(_)) || !resync(st) {
+                            out.prune = true;
+                            st.dead = true;
+                        }
                     }
                 }
             }
